@@ -67,6 +67,14 @@ def generate(rs: int, tier: str, index: int) -> dict:
         lit["coefficients"] = [[(v if v else 2) for v in lit["coefficients"][0]]] if size else lit["coefficients"]
     if special == "constant":
         lit = model.gen_constant(ch.sub("c"), shape=shape, kind=kindc, names=names)
+    if kind == "text" and ch.sub("bigexp").chance(0.1):
+        # exponents whose storage keys are not ASCII characters (still inside latin-1)
+        for e in lit["exponents"]:
+            if sum(e) and ch.sub("bigexp").chance(0.6):
+                cand = [ch.sub("bigexp", j).choice([69, 100, 120, 150, 196]) if v else 0 for j, v in enumerate(e)]
+                if cand not in lit["exponents"]:
+                    e[:] = cand
+        lit["big_exponents"] = True
     lit["retain"] = ch.chance(0.3)
     view = ch.weighted([(6, "none"), (2, "T"), (1, "slice")]) if len(shape) >= 1 else "none"
     step: Dict[str, Any] = {"id": 0, "k": kind, "p": lit, "view": view}
@@ -90,6 +98,8 @@ def generate(rs: int, tier: str, index: int) -> dict:
             "forward_only": ch.chance(0.4),
             "buffered_reader": ch.chance(0.3),
             "newline": ch.choice(["\n", "\n", "\n", "\r\n"]),
+            "encoding": ch.sub("enc").choice([None, None, None, None, "latin-1", "utf-8"]),
+            "skiprows": ch.sub("skip").choice([0, 0, 0, 1, 2]),
             "footer": ch.choice(["", "", "", "the end", "\n"]),
         })
     else:
@@ -315,6 +325,12 @@ class Runner:
         if step.get("footer"):
             save_kw["footer"] = step["footer"]
         load_kw = {"delimiter": None if step["delimiter"] == " " else step["delimiter"], "comments": step["comments"]}
+        if step.get("encoding"):
+            save_kw["encoding"] = load_kw["encoding"] = step["encoding"]
+        # skipping lines is harmless as long as only the leading comment lines (numpoly's header, the user's header) go
+        nlead = 1 + (len(step["header"].split("\n")) if step["header"] else 0)
+        if step.get("skiprows") and step["skiprows"] <= nlead:
+            load_kw["skiprows"] = step["skiprows"]
         saver = numpoly.savetxt if step["spelling"] == "numpoly" else numpy.savetxt
         tol = _tol(step["fmt"])
         with fileseam.FileEnv(locale=step["locale"]) as env:
@@ -327,6 +343,9 @@ class Runner:
             except Exception as exc:  # noqa: BLE001
                 if not (core.through_numpoly(exc, NUMPOLY_DIR) or isinstance(exc, (UnicodeError, OSError, ValueError, TypeError))):
                     raise
+                if isinstance(exc, UnicodeError) and step["p"].get("big_exponents"):
+                    self.bump("undecided:keys-not-encodable")  # (a key the stream's encoding cannot hold: refusing is fine)
+                    return
                 self.violate("save-raises", "savetxt", sid, f"{type(exc).__name__}: {exc} (target {kind}, locale {step['locale']}, fmt {step['fmt']})", where)
                 return
             nwrites = f0.writes
@@ -404,6 +423,9 @@ class Runner:
             fr = fileseam.Faults()
             msg = self._load_and_compare(env, kind, target, p, load_kw, tol, fr)
             self.sigs.add(f"roundtrip|{kind}|{step['locale']}|{core.H(core.jdump(step))}")
+            if msg and step["p"].get("big_exponents") and "raised Unicode" in msg:
+                self.bump("undecided:keys-not-decodable")  # (the locale/encoding cannot hold the keys: refusing is fine)
+                msg = None
             if msg:
                 self.violate("text-roundtrip", "loadtxt", sid, f"target {kind} locale {step['locale']} fmt {step['fmt']!r} delimiter {step['delimiter']!r} comments {step['comments']!r} header {step['header']!r} shape {p.shape} view {step['view']}: {msg}",
                              dict(where, view=step["view"]))
@@ -530,7 +552,7 @@ def simplify(plan: dict):
     if step.get("view") and step["view"] != "none":
         yield dict(plan, steps=[dict(step, view="none")])
     if step["k"] == "text":
-        for key, simple in (("header", ""), ("comments", "# "), ("delimiter", " "), ("fmt", "%.18e"), ("locale", "utf-8"), ("spelling", "numpoly"), ("fault", None), ("newline", "\n"), ("footer", ""), ("buffered_reader", False), ("forward_only", False)):
+        for key, simple in (("header", ""), ("comments", "# "), ("delimiter", " "), ("fmt", "%.18e"), ("locale", "utf-8"), ("spelling", "numpoly"), ("fault", None), ("newline", "\n"), ("footer", ""), ("buffered_reader", False), ("forward_only", False), ("encoding", None), ("skiprows", 0)):
             if step.get(key) != simple:
                 yield dict(plan, steps=[dict(step, **{key: simple})])
     if "p" in step:
